@@ -6,7 +6,7 @@
 use crate::gen::ModelData;
 use vaporetto::{Model, Predictor, Sentence, SolverType, Trainer};
 
-const CORPORA: [&[&str]; 8] = [
+const CORPORA: [&[&str]; 9] = [
     &["火星 猫 だ", "これ は 猫 です", "a b c ab", "猫 と 火星 人", "ab c ab c", "です から 猫 だ"],
     &["火星/名詞 猫/名詞 だ/助動詞", "これ/代名詞 は/助詞 猫/名詞 です/助動詞", "猫/動物 だ/助動詞"],
     // no word boundary anywhere: every sentence is one token
@@ -23,14 +23,23 @@ const CORPORA: [&[&str]; 8] = [
     // nothing to learn from: no sentence / only one-character sentences (no boundary at all)
     &[],
     &["a", "猫"],
+    // partially annotated sentences mixed with fully annotated ones (unknown boundaries are no examples; tags on some tokens)
+    &["P:火-星|猫 だ", "P:こ れ|は|猫/名詞|で-す", "火星 猫 だ", "P:a b|c", "P:猫 と 火-星|人/名詞", "P:で-す|か ら|猫|だ", "これ は 猫 です"],
 ];
 const TEXTS: [&str; 7] = ["火星猫だ", "これは猫です", "a", "abcab", "猫", "人が行った", "会を行って人と行った"];
-const SOLVERS: [SolverType; 2] = [SolverType::L1RegularizedL2LossSVC, SolverType::L2RegularizedLogistic];
+// all eight solvers of the trainer; the first two are the ones most cases use
+const SOLVERS: [SolverType; 8] = [SolverType::L1RegularizedL2LossSVC, SolverType::L2RegularizedLogistic, SolverType::L2RegularizedL2LossSVCDual,
+    SolverType::L2RegularizedL2LossSVC, SolverType::L2RegularizedL1LossSVCDual, SolverType::CrammerSingerSVC, SolverType::L1RegularizedLogistic,
+    SolverType::L2RegularizedLogisticDual];
+/// corpus lines are tokenized text, or partial annotation when they start with "P:"
+fn parse_line(l: &'static str) -> Sentence<'static, 'static> {
+    match l.strip_prefix("P:") { Some(p) => Sentence::from_partial_annotation(p).unwrap(), None => Sentence::from_tokenized(l).unwrap() }
+}
 
 thread_local! { static TRAINED: std::cell::Cell<usize> = std::cell::Cell::new(0); }
 
 fn check_inner(cw: u8, cn: u8, tw: u8, tn: u8, dict: u8, corpus: usize, solver: usize) -> Option<String> {
-    let sents: Vec<Sentence> = CORPORA[corpus].iter().map(|l| Sentence::from_tokenized(l).unwrap()).collect();
+    let sents: Vec<Sentence> = CORPORA[corpus].iter().map(|l| parse_line(l)).collect();
     let words: Vec<String> = if dict > 0 {
         ["猫", "火星", "ab", "です", "これは", "は", "を", "が", "に", "と", "パン", "ペン", "バス", "テスト", "カメラ", "ノート", "サッカー", "タクシー", "コーヒー", "アルバイト", "ヌネ", "ムモヤユヨ"]
             .iter().map(|w| w.to_string()).collect()
@@ -121,7 +130,7 @@ fn check_inner(cw: u8, cn: u8, tw: u8, tn: u8, dict: u8, corpus: usize, solver: 
         let p = Predictor::new(m, false).ok()?;
         let wr: Vec<&str> = word_refs.iter().map(|w| w.as_str()).collect();
         for text in TEXTS.iter().chain(CORPORA[corpus].iter().take(3)) {
-            let raw: String = match Sentence::from_tokenized(text) { Ok(s) => s.as_raw_text().to_string(), Err(_) => continue };
+            let raw: String = if text.starts_with("P:") { parse_line(text).as_raw_text().to_string() } else { match Sentence::from_tokenized(text) { Ok(s) => s.as_raw_text().to_string(), Err(_) => continue } };
             let mut s = Sentence::from_raw(raw.clone()).unwrap();
             p.predict(&mut s);
             let feats = crate::trainref::features(&s, (cw, cn, tw, tn), &wr, dict);
